@@ -398,6 +398,17 @@ class QAdaptiveActivation(Layer, PrunableLayer):
         tf.math.logical_and(self.is_estimating_step_count, training),
         tf.constant(1, tf.int64), tf.constant(0, tf.int64)))
 
+    # The integer bits follow the moving range; derive them again here since
+    # the range may have been restored (load_weights, set_weights) after the
+    # quantizer's variable was last written.
+    self.quantizer.integer.assign(_get_integer_bits(
+        min_value=self.ema_min,
+        max_value=self.ema_max,
+        bits=self.total_bits,
+        symmetric=self.symmetric,
+        keep_negative=self.keep_negative,
+        is_clipping=self.po2_rounding))
+
     # Perform the quantization
     if training:
       # Calculate the qnoise, a scalar from 0 to 1 that represents the level of
